@@ -1,23 +1,41 @@
-import FstVerif.Model.Merge
+import FstVerif.Proofs.Merge
 /-
-C19 — unsorted CLI builds. (`C19_result` is assembled from Proofs/Merge.lean;
-here: the algebra of the value mergers that makes batching irrelevant.)
+C19 — unsorted CLI builds are independent of batching, file-descriptor limit
+and scheduling. PARTIAL: the theorem is about the data flow of merge.rs
+(Model/Merge.lean) with the scheduler as an adversarial permutation of each
+generation's results; OS threads, channels and temp files are not modelled and
+are exercised only by running the real binary (./check, seeded delays).
+Statements here; proofs in Proofs/Merge.lean (with the union specification
+from Proofs/Ops.lean).
 -/
-namespace Fst
+namespace Fst.Props
+open Fst Fst.MergeProofs
 
-theorem C19_op_comm (m : MergeMode) (x y : Nat) : m.op x y = m.op y x := by
-  cases m <;> simp [MergeMode.op, Nat.add_comm, Nat.max_comm, Nat.min_comm]
+/-- for every batch size, every fd limit ≥ 2 and every schedule (any permutation
+of each generation's results): the merge terminates and yields the sorted
+distinct keys with the merge (sum / max / min) of ALL values given for each key -/
+theorem C19_result (m : MergeMode) (batchSize fd : Nat) (hfd : 2 ≤ fd)
+    (sched : Nat → List KV → List KV) (hsched : ∀ g xs, (sched g xs).Perm xs)
+    (rows : List (Key × Nat)) :
+    mergeAll m batchSize fd sched rows = some (Spec.merged m rows) :=
+  C19_result_final m batchSize fd hfd sched hsched rows
 
-theorem C19_op_assoc (m : MergeMode) (x y z : Nat) : m.op (m.op x y) z = m.op x (m.op y z) := by
-  cases m <;> simp [MergeMode.op, Nat.add_assoc, Nat.max_assoc, Nat.min_assoc]
+/-- what `merged` means: membership-defined, not merge-defined -/
+theorem C19_spec (m : MergeMode) (rows : List (Key × Nat)) (k : Key) (v : Nat) :
+    (k, v) ∈ Spec.merged m rows ↔ k ∈ rows.map (·.1) ∧ v = m.fold (valuesOf rows k) := mem_merged m rows k v
 
-/-- the fold of a union's values starts from the first value, so `min` is not absorbed by 0 -/
-theorem C19_fold_singleton (m : MergeMode) (v : Nat) (h : m ≠ .set) : m.fold [v] = v := by
-  simp [MergeMode.fold, h]
+/-- the result does not depend on the order of the input rows either -/
+theorem C19_row_order (m : MergeMode) (r1 r2 : List (Key × Nat)) (h : r1.Perm r2) :
+    Spec.merged m r1 = Spec.merged m r2 := merged_perm m h
 
-theorem C19_fold_min (a b : Nat) : MergeMode.min.fold [a, b] = Nat.min a b := by
-  simp [MergeMode.fold, MergeMode.op]
+/-- fd-limit ≤ 1 cannot make progress (outside the contract) -/
+theorem C19_fd_le_1_stuck (m : MergeMode) (fd : Nat) (hfd : fd ≤ 1) (sched : Nat → List KV → List KV)
+    (hsched : ∀ g xs, (sched g xs).Perm xs) (fuel g : Nat) (results : List KV) (h : 2 ≤ results.length) :
+    mergeGens m fd sched fuel g results = none := C19_no_progress_fd_le1 m fd hfd sched hsched fuel g results h
+
+theorem C19_op_comm (m : MergeMode) (x y : Nat) : m.op x y = m.op y x := op_comm m x y
+theorem C19_op_assoc (m : MergeMode) (x y z : Nat) : m.op (m.op x y) z = m.op x (m.op y z) := op_assoc m x y z
 
 example : kvBatch .sum [([97], 1), ([97], 2), ([98], 5), ([97], 1)] = [([97], 4), ([98], 5)] := by decide
 
-end Fst
+end Fst.Props
